@@ -272,7 +272,7 @@ func leanStrList(vs []string) string {
 func leanIdent(s string) string {
 	var b strings.Builder
 	for _, r := range s {
-		if r == '.' || r == '-' || r == '/' {
+		if r == '.' || r == '-' || r == '/' || r == '#' {
 			b.WriteByte('_')
 		} else {
 			b.WriteRune(r)
